@@ -44,6 +44,9 @@ use slotmap::Key;
 /// calls.  The top-level expression is expected to be at stage 0 (the output
 /// of `wrap_to_staged_expr` followed by type checking).
 pub fn translate(expr: ExprNodeId) -> ExprNodeId {
+    // Temporaries are numbered per translation: their names end up in the generated
+    // code (e.g. as function labels), which must not depend on earlier compilations.
+    DESUGAR_COUNTER.with(|c| c.set(0));
     translate_stage0(expr)
 }
 
